@@ -44,6 +44,34 @@ FragMatchFails(ev) ==
         gotBag  == BagOfSeq([ q \in 1..Len(ev.res) |-> <<ev.res[q].id, ev.res[q].m8, ev.res[q].inten>> ]) IN
     IF gotBag = wantBag THEN {} ELSE {"fragment_matches_differ"}
 
+(* op = "fragmatch1": get_fragment_matches in mode closest / largest: every fragment with a peak in tolerance is   *)
+(* matched exactly once, with an admissible peak; fragments without one are not matched                          *)
+InWindow(ev, f, p) == LET t == ev.frags[f].t8  off == Offset8(t, ev.tt, ev.tol) IN
+                      ev.peaks[p].m8 >= t - off /\ ev.peaks[p].m8 <= t + off
+WindowOf(ev, f) == { p \in 1..Len(ev.peaks) : InWindow(ev, f, p) }
+Admissible1(ev, f) ==
+    LET W == WindowOf(ev, f) IN
+    IF ev.mode = "closest"
+    THEN { p \in W : \A q \in W : AbsDiff(ev.peaks[p].m8, ev.frags[f].t8) <= AbsDiff(ev.peaks[q].m8, ev.frags[f].t8) }
+    ELSE { p \in W : \A q \in W : ev.peaks[p].inten >= ev.peaks[q].inten }
+FragMatch1Fails(ev) ==
+    UNION { LET mine == { q \in 1..Len(ev.res) : ev.res[q].id = ev.frags[f].id } IN
+            IF WindowOf(ev, f) = {} THEN (IF mine # {} THEN {"match_reported_without_peak"} ELSE {})
+            ELSE IF mine = {} THEN {"fragment_with_peak_in_tolerance_not_matched"}
+            ELSE IF Cardinality(mine) > 1 THEN {"fragment_matched_more_than_once"}
+            ELSE LET r == ev.res[CHOOSE q \in mine : TRUE] IN
+                 IF \E p \in Admissible1(ev, f) : ev.peaks[p].m8 = r.m8 /\ ev.peaks[p].inten = r.inten THEN {}
+                 ELSE {"matched_peak_not_admissible"}
+          : f \in 1..Len(ev.frags) }
+
+(* op = "cov1": coverage after a one-match-per-fragment matching: every fragment with a peak in tolerance counts   *)
+(* its residues [0, id) once                                                                                     *)
+Cov1Fails(ev) ==
+    LET matched == { f \in 1..Len(ev.frags) : WindowOf(ev, f) # {} }
+        want == [ p \in 1..ev.n |-> Cardinality({ f \in matched : p <= ev.frags[f].id }) ] IN
+    IF matched = {} THEN (IF ev.res # <<>> THEN {"coverage_of_nothing"} ELSE {})
+    ELSE IF ev.res # want THEN {"coverage_counts"} ELSE {}
+
 (* op = "pct": get_matched_intensity_percentage(matches, intensities); peaks have pairwise distinct m/z *)
 PctFails(ev) ==
     LET total == FoldInts([ p \in 1..Len(ev.peaks) |-> ev.peaks[p].inten ])
@@ -75,6 +103,8 @@ Fails(ev) == IF ev.out # "ret" THEN {"raised_" \o ev.out}
              ELSE CASE ev.op = "indices" -> IndicesFails(ev)
                     [] ev.op = "match" -> MatchFails(ev)
                     [] ev.op = "fragmatch" -> FragMatchFails(ev)
+                    [] ev.op = "fragmatch1" -> FragMatch1Fails(ev)
+                    [] ev.op = "cov1" -> Cov1Fails(ev)
                     [] ev.op = "pct" -> PctFails(ev)
                     [] ev.op = "cov" -> CovFails(ev)
                     [] ev.op = "fix" -> FixFails(ev)
